@@ -133,6 +133,13 @@ func makeRemoteSource(sourceType string, u *url.URL, subPath string) (RemoteSour
 	if canon.User != nil {
 		return RemoteSource{}, fmt.Errorf("must not use username or password in URL portion")
 	}
+	// A URL put together by hand with a scheme but no host prints in the
+	// opaque form too (https:user:pw@example.com/repo.git), although its own
+	// Opaque field is empty, and comes back from parsing with everything
+	// after the colon in Opaque.
+	if canon.Opaque != "" {
+		return RemoteSource{}, fmt.Errorf("must contain an absolute URL with :// after its scheme")
+	}
 	u = canon
 
 	// A doubled slash separates a package address from a sub-path, so a
